@@ -117,11 +117,96 @@ let short s = let h = hexs s in if String.length h > 80 then String.sub h 0 80 ^
 
 let lower_s (s : char list) = List.map Char.lowercase_ascii s
 
+(* direct cases for the JSON codecs: PD / CT marshal+unmarshal of a Go value,
+   PJ / CJ unmarshal of a JSON object *)
+let judge_direct kind ins outs =
+  let i = kvs (List.tl ins) and o = kvs outs in
+  let env = { defs = Array.of_list (List.map chars_of_hex (all "D" o)) } in
+  let (x, nu) = mk_ext env o in
+  let hx k = match one k i with Some v -> chars_of_hex v | None -> [] in
+  let pin = List.map (fun v -> match parts v with
+      | [n; va; f; c] -> { p_name = chars_of_hex n; p_value = chars_of_hex va; p_file = chars_of_hex f; p_ctype = chars_of_hex c }
+      | _ -> raise (Bad "PP")) (all "PP" i) in
+  let obs = match one "obs" o with Some v -> v | None -> raise (Bad "no obs") in
+  if obs = "panic" then VPropfail ("no_panic", "the JSON codec panicked") else
+  let post_of pk ppk = match one pk o with
+    | Some v -> (match parts v with
+        | [m; t] -> Some { pd_mime = bs env m; pd_params = List.map (param_of env) (all ppk o); pd_text = bs env t }
+        | _ -> raise (Bad pk))
+    | None -> None in
+  let content_of k = match one k o with
+    | Some v -> (match parts v with
+        | [sz; m; t; en] -> Some { ct_size = zint sz; ct_mime = bs env m; ct_text = bs env t; ct_enc = bs env en }
+        | _ -> raise (Bad k))
+    | None -> None in
+  let sz = match one "SZ" i with Some v -> zint v | None -> Z0 in
+  let lossy what = VPropfail ("json_roundtrip", "non-utf8-string-replaced n=" ^ string_of_int (List.length nu) ^ " in=" ^ what) in
+  match kind with
+  | "PD" ->
+      let e = { pd_mime = hx "MT"; pd_params = pin; pd_text = hx "T" } in
+      if obs <> "ok" then VDisagree "PostData.MarshalJSON-failed" else
+      let rt = if one "rt" o = Some "ok" then post_of "rpd" "rpp" else None in
+      let pred = unmarshal_post x (marshal_post x e) in
+      let same a b = match a, b with Some p, Some q -> post_eq p q | None, None -> true | _ -> false in
+      if not (same rt (Some e)) then
+        (if same pred rt && nu <> [] then lossy "postdata" else VPropfail ("json_roundtrip", "unexplained-difference-after-json-round-trip"))
+      else if not (same pred rt) then VDisagree "model-roundtrip-differs"
+      else
+        let j = marshal_post x e in
+        (match one "jpd" o with
+         | Some v ->
+             (match parts v with
+              | [mi; t; en] ->
+                  if j.jp_mime = bs env mi && j.jp_text = bs env t && j.jp_enc = bs env en
+                     && j.jp_params = List.map (param_of env) (all "jpp" o)
+                  then VOk (e.pd_text <> [])
+                  else VDisagree "model-json-postdata-differs"
+              | _ -> VDisagree "jpd-token")
+         | None -> VDisagree "no-jpd")
+  | "CT" ->
+      let e = { ct_size = sz; ct_mime = hx "MT"; ct_text = hx "T"; ct_enc = hx "EN" } in
+      (match marshal_content x e with
+       | None -> if obs = "err" then VOk false else VDisagree "model-says-marshal-error"
+       | Some j ->
+           if obs <> "ok" then VDisagree "Content.MarshalJSON-failed" else
+           let rt = if one "rt" o = Some "ok" then content_of "rct" else None in
+           let pred = unmarshal_content x j in
+           let same a b = match a, b with Some p, Some q -> content_eq p q | None, None -> true | _ -> false in
+           let is_b64 = e.ct_enc = cs "base64" in
+           if is_b64 && not (same rt (Some e)) then
+             (if same pred rt && nu <> [] then lossy "content" else VPropfail ("json_roundtrip", "unexplained-difference-after-json-round-trip"))
+           else if not (same pred rt) then VDisagree "model-roundtrip-differs"
+           else (match content_of "jct" with
+               | Some c -> if j.jc_size = c.ct_size && j.jc_mime = c.ct_mime && j.jc_text = c.ct_text && j.jc_enc = c.ct_enc
+                   then VOk (is_b64 && e.ct_text <> []) else VDisagree "model-json-content-differs"
+               | None -> VDisagree "no-jct"))
+  | "PJ" ->
+      (* the harness writes the JSON object with encoding/json: strings arrive sanitised *)
+      let j = { jp_mime = x.sanitize (hx "MT"); jp_params = List.map (fun p ->
+          { p_name = x.sanitize p.p_name; p_value = x.sanitize p.p_value; p_file = x.sanitize p.p_file; p_ctype = x.sanitize p.p_ctype }) pin;
+                jp_text = x.sanitize (hx "T"); jp_enc = x.sanitize (hx "EN") } in
+      (match unmarshal_post x j, obs with
+       | None, "err" -> VOk false
+       | Some p, "ok" -> (match post_of "rpd" "rpp" with
+           | Some q when post_eq p q -> VOk true
+           | _ -> VDisagree "model-unmarshal-postdata-differs")
+       | _ -> VDisagree ("model-unmarshal-postdata-outcome obs=" ^ obs))
+  | "CJ" ->
+      let j = { jc_size = sz; jc_mime = x.sanitize (hx "MT"); jc_text = x.sanitize (hx "T"); jc_enc = x.sanitize (hx "EN") } in
+      (match unmarshal_content x j, obs with
+       | None, "err" -> VOk false
+       | Some p, "ok" -> (match content_of "rct" with
+           | Some q when content_eq p q -> VOk true
+           | _ -> VDisagree "model-unmarshal-content-differs")
+       | _ -> VDisagree ("model-unmarshal-content-outcome obs=" ^ obs))
+  | _ -> VDisagree "unknown-case-kind"
+
 let judge _name ins outs =
   match outs with
   | ["BADIN"] -> VDisagree "harness-could-not-build-the-input"
   | _ ->
   let kind = match ins with k :: _ -> k | [] -> raise (Bad "empty") in
+  if kind = "PD" || kind = "CT" || kind = "PJ" || kind = "CJ" then judge_direct kind ins outs else
   let i = kvs (List.tl ins) and o = kvs outs in
   let env = { defs = Array.of_list (List.map chars_of_hex (all "D" o)) } in
   let (x, nu) = mk_ext env o in
